@@ -15,6 +15,8 @@ RULE = ('cases = operator/vector/operator triples of order 1..4 with rectangular
         'scalar +,-,*,/ from both sides, unary -, full()}; bounded-exhaustive small structures (order<=2, sizes<=3, ranks<=2) in thorough. '
         'Oracle: tensordot on harness-contracted dense operators (modes un-interleaved by the harness); bit-equality on int-valued cores, '
         '1e3*u*S_rep otherwise; product ranks; dtype. distinct = (op, structure, dtype, value class); non-trivial = non-zero reference.')
+from ..hist import RULE_SUFFIX as _RS
+RULE = RULE + _RS
 ASSUMPTIONS = ['dense operators are M1..Md x N1..Nd arrays obtained by the harness own contraction',
                'np.int64 / complex-divisor scalar forms that the library explicitly refuses are outside the workload (see C03)']
 REQUIRED_REACH = ['_tt_base:TT.__matmul__', '_aux_ops:dense_matvec', '_tt_base:TT.t', '_tt_base:TT.__add__', '_tt_base:TT.__sub__', '_tt_base:TT.__mul__',
